@@ -162,8 +162,8 @@ def read_workbook(path):
     rows = _rows(path, 'Links')
     if rows is not None:
         h = _header_row(rows, 'Node A')
-        if h is None:
-            return None, ['Links sheet without a Node A header']
+        if h is None or len(rows[h]) < 2 or str(rows[h][1]).strip() != 'Node Z':
+            return None, ['Links sheet without the Node A / Node Z header line: not an abstract workbook']
         g = _groups(rows, h, 16)
         if 'east' not in g:
             return None, ['Links sheet without an east group']
@@ -185,6 +185,9 @@ def read_workbook(path):
                                 elif f == 'pmd':
                                     if not _blank(r[j]):
                                         ex.append('PMD cells are outside the vocabulary')
+                                elif f == 'dist' and isinstance(r[j], float):
+                                    # lengths are given to the metre: the sheet value is read rounded to 3 decimals
+                                    vals[f] = _val(round(r[j], 3), ex, f'Links/{side}/{f}')
                                 else:
                                     vals[f] = _val(r[j], ex, f'Links/{side}/{f}')
                 ln[side] = vals
